@@ -16,13 +16,16 @@ PROP = {'n_quick': 60,
  'assumes': ["uncompressed public keys and multi-leaf tap trees are not generated (C07's F9)"]}
 
 TEXT = {'text': 'Kernel-checked theorems over the per-field merge policy table that the translator rebuilds from the three `fn merge` bodies on every run: the '
-         'unique-id gate refuses different ids (C14_gate); every field merged by a keeping statement (7 global, 45 input, 17 output fields, incl. sighash_type, '
-         'sequence, amount, asset after the F3 repair) keeps whatever either operand has, at the global map and every input/output position (C14_keeps_all); the '
-         'complement is pinned by computation: the output commitments are fixed by the unique id (C14_commitments_fixed_by_uid), tx_data.fallback_locktime and the '
-         'clearing of non_witness_utxo are unrepaired findings refuted by witnesses; the xpub key-source reconciliation equals its documented algorithm and never '
-         'panics, for every pair of key sources (C14_xpub, unconditional after the F2+F4 repair); both merge orders of compatible descendants give the same PSET '
-         '(C14_commutes); the scalar list, whose extend/sort/dedup statements are read in source order and executed exactly, merges to a duplicate-free sorted union in either direction for any two lists (C14_scalars); every binary merge tree over every permutation of a family of k compatible descendants that agree on the transaction-identifying fields succeeds and gives the same PSET (C14_family, by characterising results as joins of their leaves; C14_family_three: (a.b).c = a.(b.c) = (c.a).b for three concrete descendants). ' 'Model and crate are run on the same '
-         'PSETs on every check.',
+         'unique-id gate refuses different ids (C14_gate); every field merged by a keeping statement (8 global, 45 input, 17 output fields, incl. '
+         'sighash_type, sequence, amount, asset and tx_data.fallback_locktime after the F3 repairs) keeps whatever either operand has, at the global map and '
+         'every input/output position (C14_keeps_all); the complement is pinned by computation: the output commitments are fixed by the unique id '
+         '(C14_commitments_fixed_by_uid), the clearing of non_witness_utxo by an arriving witness_utxo is a recorded finding refuted by a witness; the xpub '
+         'key-source reconciliation equals its documented algorithm and never panics, for every pair of key sources (C14_xpub, unconditional after the F2+F4 '
+         'repair); both merge orders of compatible descendants give the same PSET (C14_commutes); the scalar list, whose extend/sort/dedup statements are read '
+         'in source order and executed exactly, merges to a duplicate-free sorted union in either direction for any two lists (C14_scalars); every binary '
+         'merge tree over every permutation of a family of k compatible descendants that agree on the transaction-identifying fields succeeds and gives the '
+         'same PSET (C14_family, by characterising results as joins of their leaves; C14_family_three: (a.b).c = a.(b.c) = (c.a).b for three concrete '
+         'descendants). Model and crate are run on the same PSETs on every check.',
  'design_ref': 'DESIGN.md section 6, C14',
  'note': 'Trusted: Coq kernel; translator (statement recogniser for fn merge bodies; unknown statements are a hard error); hand-written semantics of each '
          'statement kind; opaque canonical field values; harness listing code; unique id abstract in theorems. Open: the unrepaired finding '
